@@ -78,14 +78,18 @@ static int hv(char c) { return c <= '9' ? c - '0' : c - 'a' + 10; }
 static unsigned char* unhex(const char* s, int* len)
 {
 	size_t n = strcmp(s, "-") ? strlen(s) / 2 : 0, i;
-	unsigned char* b = malloc(n + 1);
+	unsigned char* b = malloc(n + 8);
 	for (i = 0; i < n; ++i) b[i] = (unsigned char)(hv(s[2 * i]) * 16 + hv(s[2 * i + 1]));
-	b[n] = 0;
+	/* what follows the stated length is not part of the element: the constructors are given
+	   explicit lengths and must not look further (no terminator right behind the data) */
+	memcpy(b + n, "\x7e\x7f\x41\x42\x43\x44\x45", 7);
+	b[n + 7] = 0;
 	*len = (int)n;
 	return b;
 }
 /* a name: bytes up to the first NUL are what the C API sees */
-static char* nxname(Toks* k) { int l; return (char*)unhex(nx(k), &l); }
+/* names are C strings: terminated right behind the data */
+static char* nxname(Toks* k) { int l; char* b = (char*)unhex(nx(k), &l); b[l] = 0; return b; }
 
 /* ------------------------------------------------------------------ scratch files */
 static __thread FILE* g_f;   /* stream under test */
@@ -683,8 +687,8 @@ static void sc_strmk(SB* s, Toks* k)
 	unsigned char* a = unhex(nx(k), &l);
 	char* s1 = sbdf_str_create_len((char*)a, l);
 	char* s2 = sbdf_str_copy(s1);
-	char* s3 = sbdf_str_create((char*)a);
 	unsigned char* b1 = sbdf_ba_create(a, l);
+	char* s3 = (a[l] = 0, sbdf_str_create((char*)a));   /* the C-string constructor needs the terminator */
 	sb_printf(s, "len=%d ", sbdf_str_len(s1));
 	sb_hex(s, (unsigned char*)s1, (size_t)sbdf_str_len(s1) + 1);
 	sb_printf(s, " copy=%d ", sbdf_str_len(s2));
